@@ -195,3 +195,19 @@ def alpha(node, ren):
     """Copy of node with the locals in `ren` renamed to role names: comparisons are made on roles, never on spellings."""
     import copy
     return ast.fix_missing_locations(_Alpha(ren).visit(copy.deepcopy(node)))
+
+
+FLIPPED = {"Lt": "Gt", "Gt": "Lt", "LtE": "GtE", "GtE": "LtE", "Eq": "Eq", "NotEq": "NotEq", "Is": "Is", "IsNot": "IsNot"}
+
+
+def oriented(cmp, left_pred):
+    """(left, opname, right) of a single-operator comparison, oriented so that left_pred(left) holds: `0 > i` is read as `i < 0`.
+    Returns None when neither orientation fits.  Recognisers must not depend on which operand the author wrote first."""
+    if not (isinstance(cmp, ast.Compare) and len(cmp.ops) == 1):
+        return None
+    l, r, op = cmp.left, cmp.comparators[0], type(cmp.ops[0]).__name__
+    if left_pred(l):
+        return l, op, r
+    if op in FLIPPED and left_pred(r):
+        return r, FLIPPED[op], l
+    return None
